@@ -43,10 +43,11 @@ Hdrs == IF pat.common THEN CommonCasesOf(pat.text)
         ELSE CasesOf(pat.kws, pat.query, IF Mode = "lex" THEN LexShortForms ELSE {}) \cup ProdHdrs
 WF == ~pat.common /\ WellFormedPattern(pat.kws)
 
-Agree(h) == LET m == MatchAlgo(pat.kws, pat.query, h, DefaultMark) IN
-            /\ m.ok = Accepts(pat.kws, pat.query, h)
-            /\ m.ok => m.nums = Numbers(pat.kws, pat.query, h, DefaultMark)
-Unique(h) == Cardinality(GoodSelections(pat.kws, pat.query, h)) <= 1
+Agree(h) == LET a == Accepts(pat.kws, pat.query, h)
+                m == MatchAlgo(pat.kws, pat.query, h, DefaultMark)
+            IN /\ m.ok = a
+               /\ a => /\ m.nums = Numbers(pat.kws, pat.query, h, DefaultMark)
+                       /\ Cardinality(GoodSelections(pat.kws, pat.query, h)) = 1      \* UniqueSelection
 RoundTrip  == /\ ParsePattern(pat.text).kws = pat.kws /\ ParsePattern(pat.text).query = pat.query
               /\ ParsePattern(pat.text).common = pat.common
               /\ (~pat.common => PatternText(pat.kws, pat.query) = pat.text)
@@ -61,8 +62,7 @@ Checked ==
         /\ FirstMatch(<<pat.text>>, pat.text) = 1 /\ FirstMatch(<<pat.text>>, <<COLON>> \o pat.text) = 0
         /\ PrintT(<<"COMMON", Cardinality(H), Cardinality({h \in H : AcceptsText(pat.text, h)})>>)
      ELSE IF WF THEN
-        /\ \A h \in H : Agree(h)                                             \* AlgoEqualsSpec
-        /\ \A h \in H : Unique(h)                                            \* UniqueSelection
-        /\ PrintT(<<"WELLFORMED", Cardinality(H), Cardinality({h \in H : Accepts(pat.kws, pat.query, h)})>>)
+        /\ \A h \in H : Agree(h)                                             \* AlgoEqualsSpec, UniqueSelection
+        /\ PrintT(<<"WELLFORMED", Cardinality(H)>>)
      ELSE PrintT(<<"ILLFORMED", IF \A h \in H : Agree(h) THEN 0 ELSE 1>>)   \* SideCondition
 =============================================================================
